@@ -183,7 +183,7 @@ def run(tier="quick", only_key=None):
             # the number of spatial axes is read from u.shape: give a concrete rank
             uw = state_phys(D, 1)
             w = it.call(fn("wrap_bc", ut), [uw])
-            if isinstance(w, Term) and w.op == "pad" and w.args[1:] == (((0, 0),) + ((0, 1),) * D, "wrap"):
+            if _wrap_pad_widths(w, uw) == ((0, 0),) + ((0, 1),) * D:
                 ck.ok("grid", f"exponax._utils.wrap_bc#{tag}")
             else:
                 ck.fail("grid", f"exponax._utils.wrap_bc#{tag}", loc(fn("wrap_bc", ut)), f"wrap_bc is not pad(u, ((0,0),(0,1)*D), mode='wrap'): {w}")
@@ -218,6 +218,32 @@ def run(tier="quick", only_key=None):
 
 def _fs(block):
     return tuple((str(s.start), str(s.stop), str(s.step)) if isinstance(s, slice) else str(s) for s in block)
+
+
+def _wrap_pad_widths(w, operand):
+    """total pad widths of a (possibly nested) wrap-mode pad of `operand`; nested pads compose when they touch disjoint
+    axes (wrapping axis a and then axis b is the same as wrapping both at once); None if it is anything else"""
+    total = None
+    while isinstance(w, Term) and w.op == "pad":
+        if len(w.args) < 3 or w.args[2] != "wrap":
+            return None
+        widths = w.args[1]
+        if isinstance(widths, tuple) and widths and widths[0] in ("list", "tuple"):
+            widths = widths[1:]
+        try:
+            widths = tuple((int(a), int(b)) for a, b in widths)
+        except Exception:
+            return None
+        if total is None:
+            total = widths
+        else:
+            if len(total) != len(widths) or any(x != (0, 0) and y != (0, 0) for x, y in zip(total, widths)):
+                return None
+            total = tuple((x[0] + y[0], x[1] + y[1]) for x, y in zip(total, widths))
+        w = w.args[0]
+    if total is None or w is not operand and not (isinstance(w, Tens) and isinstance(operand, Tens) and w.shape == operand.shape and w.data == operand.data):
+        return None
+    return total
 
 
 def _indexing(ck, it, fn, ut, D, parity, indexing, fshape):
